@@ -403,9 +403,16 @@ Definition expect_super_csr (op st : csr) : option C :=
                     (seq 0 n) c0).
 
 (* the routes the Data / Dense / Dia specialisations take:
-   expect_data(op, ket)      = inner(ket, op @ ket)            (no scalar_is_ket)
+   expect_data(op, ket)      = inner(ket, op @ ket, True)   (scalar_is_ket: a 1x1
+                               state is a ket and is conjugated)
    inner_op_*(l, op, r, flg) = inner(l, op @ r, flg)                            *)
 Definition expect_via_inner (op st : csr) : option C :=
+  match matmul_csr op st c1 with
+  | Some v => inner_csr st v true
+  | None => None
+  end.
+(* before the fix expect_data passed no flag: a 1x1 state was read as a bra *)
+Definition old_expect_via_inner (op st : csr) : option C :=
   match matmul_csr op st c1 with
   | Some v => inner_csr st v false
   | None => None
@@ -911,6 +918,7 @@ Definition G_inner_op_csr := inner_op_csr G g0 gadd gmul gconj.
 Definition G_expect_csr := expect_csr G g0 gadd gmul gconj.
 Definition G_expect_super_csr := expect_super_csr G g0 gadd gmul.
 Definition G_expect_via_inner := expect_via_inner G g0 g1 gadd gmul gconj gis0 (gtidy 1).
+Definition G_old_expect_via_inner := old_expect_via_inner G g0 g1 gadd gmul gconj gis0 (gtidy 1).
 Definition G_inner_op_via_product := inner_op_via_product G g0 g1 gadd gmul gconj gis0 (gtidy 1).
 Definition G_matmul_csr := matmul_csr G gadd gmul gis0 (gtidy 1).
 Definition G_matmul_csr_dense := matmul_csr_dense G g0 gadd gmul.
